@@ -1,19 +1,64 @@
+// slockcheck decides structural necessary conditions of the slock properties
+// by static analysis of /repo's current source (see /verif/DESIGN.md).
 package main
 
 import (
+	"flag"
 	"fmt"
-	"golang.org/x/tools/go/packages"
-	"golang.org/x/tools/go/ssa"
-	"golang.org/x/tools/go/ssa/ssautil"
-	_ "golang.org/x/tools/go/callgraph/vta"
-	_ "golang.org/x/tools/go/callgraph/cha"
-	_ "golang.org/x/tools/go/cfg"
+	"os"
+	"path/filepath"
+	"strconv"
+
+	"slockverif/internal/core"
+	"slockverif/internal/rules"
 )
 
 func main() {
-	cfg := &packages.Config{Mode: packages.LoadAllSyntax, Dir: "/repo"}
-	pkgs, err := packages.Load(cfg, "./...")
-	fmt.Println(len(pkgs), err)
-	prog, _ := ssautil.AllPackages(pkgs, ssa.InstantiateGenerics)
-	prog.Build()
+	prop := flag.String("property", "", "property id (C01..C19)")
+	tier := flag.String("tier", "", "quick|thorough (default $VERIF_TIER or quick)")
+	repo := flag.String("repo", core.RepoDir(), "repository to analyse")
+	verif := flag.String("verif", "", "verification directory (default: directory above the binary)")
+	dump := flag.String("dump", "", "debug: print canonical branch conditions of a function")
+	flag.Parse()
+	if *tier == "" {
+		*tier = os.Getenv("VERIF_TIER")
+	}
+	if *tier != "thorough" {
+		*tier = "quick"
+	}
+	if *verif == "" {
+		exe, _ := os.Executable()
+		*verif = filepath.Dir(filepath.Dir(exe))
+	}
+	seed, _ := strconv.ParseInt(os.Getenv("VERIF_SEED"), 10, 64)
+
+	p, err := core.Load(*repo)
+	if err != nil {
+		fmt.Printf("CHECKER-FAILURE load: %v\n", err)
+		os.Exit(2)
+	}
+	if *dump != "" {
+		rules.Dump(p, *dump)
+		return
+	}
+	run, ok := rules.Registry[*prop]
+	if !ok {
+		fmt.Printf("CHECKER-FAILURE unknown property %q\n", *prop)
+		os.Exit(2)
+	}
+	r := core.NewReport(*prop, *tier, seed)
+	r.Stats["packages"] = len(p.Pkgs)
+	r.Stats["module_functions"] = len(p.Funcs())
+	func() {
+		defer func() {
+			if e := recover(); e != nil {
+				r.Fail("panic in checker: %v", e)
+				if os.Getenv("SLOCKCHECK_DEBUG") != "" {
+					panic(e)
+				}
+			}
+		}()
+		run(p, r)
+	}()
+	os.Exit(r.Finish(*verif))
 }
